@@ -3,6 +3,7 @@ import Ovsdb.Model.Diff
 import Ovsdb.CodecCache
 import Ovsdb.Model.Cond
 import Ovsdb.CodecUpdates
+import Ovsdb.CodecTxn
 /-
   Line-protocol driver: one JSON request per line on stdin, one JSON answer per
   line on stdout.  {"fn": name, ...inputs} -> {"ok": result} | {"error": text}
@@ -96,6 +97,38 @@ def mergeModifyRowFn (j : Json) : P Json := do
   let b ← ovsRowOfJson (← jField j "b")
   return optToJson ovsRowToJson (mergeModifyRow ts o a b)
 
+/-- a history of transactions against an initially empty database: each is
+    executed by `transact`; if accepted it is committed.  Reports per
+    transaction the results, the aggregated update and the database after it. -/
+def dbHistory (j : Json) : P Json := do
+  let σ ← dbModelOfJson (← jField j "model")
+  let txns ← jArr (← jField j "txns")
+  let mut db := Database.empty σ
+  let mut out : Array Json := #[]
+  for t in txns do
+    let ops ← jList operationOfJson (← jField t "ops")
+    let r := transact σ db ops
+    let mut commitErr : Option String := none
+    if r.committed then
+      match commit db r.updates with
+      | .ok db' => db := db'
+      | .error e => commitErr := some e
+    out := out.push (Json.mkObj [("results", listToJson opResultToJson r.results), ("committed", .bool r.committed),
+      ("commitErr", optToJson Json.str commitErr),
+      ("updates", updatesToJson r.updates), ("rows", rowsToJson db.toRows), ("refs", refsToJson (computeRefs σ db.toRows))])
+  return .arr out
+
+def expandNamedFn (j : Json) : P Json := do
+  let σ ← dbModelOfJson (← jField j "model")
+  let ops ← jList operationOfJson (← jField j "ops")
+  match expandNamedUUIDs σ ops with
+  | .error e => return Json.mkObj [("err", .str e)]
+  | .ok ops' => return Json.mkObj [("ops", listToJson (fun (o : Operation) => Json.mkObj [
+      ("op", .str o.op), ("table", .str o.table), ("uuid", .str o.uuid), ("uuid-name", .str o.uuidName),
+      ("row", ovsRowToJson o.row), ("rows", listToJson ovsRowToJson o.rows),
+      ("where", listToJson (fun (c : WCond) => ovsValToJson c.val) o.where_),
+      ("mutations", listToJson (fun (m : Mutation) => ovsValToJson m.val) o.mutations)]) ops')]
+
 def dispatch (fn : String) (j : Json) : P Json := do
   match fn with
   | "difference" =>
@@ -111,6 +144,8 @@ def dispatch (fn : String) (j : Json) : P Json := do
     let a ← optValueOfJson (← jField j "a")
     let b ← optValueOfJson (← jField j "b")
     return resPair (mergeDifference o a b)
+  | "dbHistory" => dbHistory j
+  | "expandNamedUUIDs" => expandNamedFn j
   | "updatesChain" => updatesChain j
   | "mergeModifyRow" => mergeModifyRowFn j
   | "cacheHistory" => cacheHistory j
